@@ -29,6 +29,7 @@ def observe(lab, c):
                   require_calling=[title(r) for r in c["required"]], require_called=c["requireCalled"],
                   identity=None if c["identity"] in ("none", "unbound") else c["identity"], inplace=c.get("how") == "inplace")
     lab.server.ae_title = title(c["own"])
+    lab.apply_idhist(None if c["identity"] in ("none", "unbound") else c["identity"], c["idhist"])
     ident = None if c["identity"] == "none" else {"type": 1, "primary": b"user"}
     rq = lab.rq_pdu([{"id": 1, "ab": "A", "ts": ["T1"]}], calling=title(c["calling"]), called=title(c["called"]), identity=ident)
     out = lab.raw_associate(rq.encode(), then_echo=True)
@@ -57,13 +58,14 @@ def run(ctx: Ctx) -> int:
         p = _P(r.out)
         p.i = m.start()
         v = p.value()[1]
-        cases.append({"calling": v["calling"], "called": v["called"], "own": v["own"], "requireCalled": v["requireCalled"], "identity": v["identity"], "how": v["how"],
+        cases.append({"calling": v["calling"], "called": v["called"], "own": v["own"], "requireCalled": v["requireCalled"], "identity": v["identity"], "how": v["how"], "idhist": {"start": v["idhist"]["start"], "ops": [list(x) for x in v["idhist"]["ops"]]},
                       "required": [dict(t) for t in sorted(v["required"], key=repr)]})
     if len(cases) < 1000:
         raise MachineryError(f"only {len(cases)} cases exported")
     if ctx.tier != "thorough":
         import random
-        cases = random.Random(ctx.seed + 13).sample(cases, 2000)
+        plain = [c for c in cases if not c["idhist"]["ops"]]
+        cases = random.Random(ctx.seed + 13).sample(plain, 2000) + [c for c in cases if c["idhist"]["ops"]]
     nthreads = 8
     outs = [[] for _ in range(nthreads)]
 
@@ -88,12 +90,12 @@ def run(ctx: Ctx) -> int:
         v = verdicts[o["id"]][0]
         c = o["c"]
         ctx.traces += 1
-        ctx.case((title(c["calling"]), tuple(title(x) for x in c["required"]), title(c["called"]), title(c["own"]), c["requireCalled"], c["identity"], c.get("how")),
+        ctx.case((title(c["calling"]), tuple(title(x) for x in c["required"]), title(c["called"]), title(c["own"]), c["requireCalled"], c["identity"], c.get("how"), c["idhist"]["start"], tuple(map(tuple, c["idhist"]["ops"]))),
                  nontrivial=bool(c["required"]) or c["requireCalled"] or c["identity"] != "none")
         if v != "ok":
-            ctx.violation({"clause": v, "identity": c["identity"], "padded": bool(c["calling"]["lead"] or c["calling"]["trail"] or c["called"]["lead"] or c["called"]["trail"])},
+            ctx.violation({"clause": v, "identity": c["identity"], "reconfigured": bool(c["idhist"]["ops"]), "padded": bool(c["calling"]["lead"] or c["calling"]["trail"] or c["called"]["lead"] or c["called"]["trail"])},
                           f"{v}: calling={title(c['calling'])!r} required={[title(x) for x in c['required']]} called={title(c['called'])!r} own={title(c['own'])!r} "
-                          f"require_called={c['requireCalled']} identity={c['identity']}: answer={o['kind']} result/source/reason=({o['result']},{o['src']},{o['rsn']}) "
+                          f"require_called={c['requireCalled']} identity={c['identity']} EVT_USER_ID slot history={c['idhist']}: answer={o['kind']} result/source/reason=({o['result']},{o['src']},{o['rsn']}) "
                           f"DIMSE handler calls={o['calls']} user-id handler calls={o['user_id_calls']}", c)
     ctx.sample(obs[0])
     ctx.sample(obs[len(obs) // 2])
